@@ -22,12 +22,16 @@ CONSTANTS Group       \* which slice of the product this run enumerates
 Decos   == {"pytest.fixture", "fixture", "pytest_asyncio.fixture"}
 Forms   == {"bare", "call", "name", "scope0", "scope1", "scope2", "scope3", "scope4", "scope_bad", "autouse_t", "autouse_f",
             "scope_autouse"}
-Extras  == {"none", "before", "after"}          \* an unrelated decorator before / after the fixture decorator
+\* an unrelated decorator before / after the fixture decorator; a usefixtures mark or an indirect parametrize
+\* mark above / below it (fixtures may carry marks: their names are usages like on tests)
+Extras  == {"none", "before", "after", "usefix_before", "usefix_after", "indirect_before", "indirect_after", "marks_around"}
 Places  == {"module", "class", "nested_class", "if"}
 PKinds  == {"plain", "posonly", "kwonly", "default", "annot", "self", "request", "star", "kw"}
 Bodies  == {"return", "yield_top", "yield_if", "yield_else", "yield_for", "yield_while", "yield_with", "yield_async_with",
             "yield_async_for", "yield_try", "yield_except", "yield_tryelse", "yield_finally", "yield_nested_def",
-            "yield_from", "yield_assign", "yield_lambda_only"}
+            "yield_from", "yield_assign", "yield_lambda_only",
+            \* several yields: the reported yield line is the FIRST in source order
+            "yield_except_else", "yield_except_finally", "yield_if_else_both", "yield_nested_then_own", "yield_handler2"}
 Rets    == {"none", "name", "attr", "subscript", "tuple_sub", "union", "string", "generator", "iterator",
             "async_iterator", "none_const"}
 Docs    == {"none", "oneline", "block", "leading_blank", "tabs", "deep_indent", "not_first", "ws_line", "crlf_free_trailing"}
@@ -84,9 +88,17 @@ RetKind(f) == CASE f.ret = "none" -> "none"
                 [] OTHER -> "whole"
 HasDoc(f) == f.doc \notin {"none", "not_first"}
 
+\* which of the body's yields (1-based, in source order, own yields only) is the reported one: always the first
+YieldOrdinal(f) == IF IsGen(f) THEN 1 ELSE 0
+\* number of mark usages (usefixtures strings + indirect names) the function's decorators contribute
+MarkUsages(f) == CASE f.extra \in {"usefix_before", "usefix_after", "indirect_before", "indirect_after"} -> 1
+                   [] f.extra = "marks_around" -> 2
+                   [] OTHER -> 0
+
 Expected(f) ==
     [present |-> IsRecorded(f), name |-> NameOf(f), scope |-> ScopeOf(f), autouse |-> AutouseOf(f),
-     deps |-> DepsOf(f), isgen |-> IsGen(f), retkind |-> RetKind(f), hasdoc |-> HasDoc(f)]
+     deps |-> DepsOf(f), isgen |-> IsGen(f), retkind |-> RetKind(f), hasdoc |-> HasDoc(f),
+     yieldord |-> YieldOrdinal(f), markuses |-> MarkUsages(f)]
 
 EmitCase == PrintT("CASE " \o ToJson([fn |-> fn, expect |-> Expected(fn)]))
 
